@@ -25,14 +25,14 @@ structure Frame (D : List Nat) (h0 h1 : Heap) : Prop where
   subject : ∀ y, ¬ y ∈ D → h1.subject y = h0.subject y
   nRec : h0.nRec ≤ h1.nRec
   nTRec : h0.nTRec ≤ h1.nTRec
-  recOf : ∀ r, RecOf h1 D r → RecOf h0 D r ∨ (h0.nRec ≤ r ∧ r < h1.nRec)
-  trecOf : ∀ r, TRecOf h1 D r → TRecOf h0 D r ∨ (h0.nTRec ≤ r ∧ r < h1.nTRec)
-  prec : ∀ r, r < h0.nRec → ¬ RecOf h0 D r → h1.prec r = h0.prec r
-  trec : ∀ r, r < h0.nTRec → ¬ TRecOf h0 D r → h1.trec r = h0.trec r
+  recOf : ∀ r, RecOf h1 D r → RecOf h0 D r ∨ ∃ x ∈ D, r = freshRec x
+  trecOf : ∀ r, TRecOf h1 D r → TRecOf h0 D r
+  prec : ∀ r, ¬ RecOf h0 D r → (∀ x ∈ D, r ≠ freshRec x) → h1.prec r = h0.prec r
+  trec : ∀ r, ¬ TRecOf h0 D r → h1.trec r = h0.trec r
 
 theorem Frame.refl (D : List Nat) (h : Heap) : Frame D h h :=
   ⟨rfl, fun _ _ => rfl, fun _ _ => rfl, fun _ _ => rfl, fun _ _ => rfl, fun _ _ => rfl, Nat.le_refl _, Nat.le_refl _,
-   fun _ hr => Or.inl hr, fun _ hr => Or.inl hr, fun _ _ _ => rfl, fun _ _ _ => rfl⟩
+   fun _ hr => Or.inl hr, fun _ hr => hr, fun _ _ _ => rfl, fun _ _ => rfl⟩
 
 theorem Frame.trans {D : List Nat} {h0 h1 h2 : Heap} (a : Frame D h0 h1) (b : Frame D h1 h2) : Frame D h0 h2 where
   n := b.n.trans a.n
@@ -45,28 +45,19 @@ theorem Frame.trans {D : List Nat} {h0 h1 h2 : Heap} (a : Frame D h0 h1) (b : Fr
   nTRec := Nat.le_trans a.nTRec b.nTRec
   recOf r hr := by
     rcases b.recOf r hr with h | h
-    · rcases a.recOf r h with q | q
-      · exact Or.inl q
-      · exact Or.inr ⟨q.1, Nat.lt_of_lt_of_le q.2 b.nRec⟩
-    · exact Or.inr ⟨Nat.le_trans a.nRec h.1, h.2⟩
-  trecOf r hr := by
-    rcases b.trecOf r hr with h | h
-    · rcases a.trecOf r h with q | q
-      · exact Or.inl q
-      · exact Or.inr ⟨q.1, Nat.lt_of_lt_of_le q.2 b.nTRec⟩
-    · exact Or.inr ⟨Nat.le_trans a.nTRec h.1, h.2⟩
-  prec r hr hn := by
-    rw [b.prec r (Nat.lt_of_lt_of_le hr a.nRec), a.prec r hr hn]
+    · exact a.recOf r h
+    · exact Or.inr h
+  trecOf r hr := a.trecOf r (b.trecOf r hr)
+  prec r hn hf := by
+    rw [b.prec r _ hf, a.prec r hn hf]
     intro h1
-    rcases a.recOf r h1 with h | h
+    rcases a.recOf r h1 with h | ⟨x, hx, e⟩
     · exact hn h
-    · omega
-  trec r hr hn := by
-    rw [b.trec r (Nat.lt_of_lt_of_le hr a.nTRec), a.trec r hr hn]
+    · exact hf x hx e
+  trec r hn := by
+    rw [b.trec r _, a.trec r hn]
     intro h1
-    rcases a.trecOf r h1 with h | h
-    · exact hn h
-    · omega
+    exact hn (a.trecOf r h1)
 
 /-- a change of node fields only (kids, parent, props, kind …) of nodes of `D` -/
 theorem frame_of_nodes (D : List Nat) (h h' : Heap)
@@ -83,9 +74,9 @@ theorem frame_of_nodes (D : List Nat) (h h' : Heap)
   nRec := by omega
   nTRec := by omega
   recOf r := by unfold RecOf; rw [hp]; exact Or.inl
-  trecOf r := by unfold TRecOf; rw [ht]; exact Or.inl
+  trecOf r := by unfold TRecOf; rw [ht]; exact id
   prec r _ _ := by rw [hpr]
-  trec r _ _ := by rw [htr]
+  trec r _ := by rw [htr]
 
 theorem frame_setNode (D : List Nat) (h : Heap) (x : Nat) (nd : Node) (hx : x ∈ D) : Frame D h (h.setNode x nd) := by
   apply frame_of_nodes <;> try rfl
@@ -110,7 +101,7 @@ theorem step_frame (D : List Nat) (s s' : Heap) (a : Act) (hn : ∀ y ∈ a.node
     | some r =>
       rw [hq] at hs; simp only [Except.ok.injEq] at hs; subst hs
       refine ⟨rfl, fun _ _ => rfl, ?_, fun _ _ => rfl, fun _ _ => rfl, fun _ _ => rfl, Nat.le_refl _, Nat.le_refl _, ?_,
-              fun _ h => Or.inl h, fun _ _ _ => rfl, fun _ _ _ => rfl⟩
+              fun _ h => h, fun _ _ _ => rfl, fun _ _ => rfl⟩
       · intro z hz
         have : z ≠ x := fun e => hz (e ▸ hx)
         simp [upd, this]
@@ -127,14 +118,14 @@ theorem step_frame (D : List Nat) (s s' : Heap) (a : Act) (hn : ∀ y ∈ a.node
     | some r =>
       rw [hq] at hs; simp only [Except.ok.injEq] at hs; subst hs
       refine ⟨rfl, fun _ _ => rfl, fun _ _ => rfl, ?_, fun _ _ => rfl, fun _ _ => rfl, Nat.le_refl _, Nat.le_refl _,
-              fun _ h => Or.inl h, ?_, fun _ _ _ => rfl, fun _ _ _ => rfl⟩
+              fun _ h => Or.inl h, ?_, fun _ _ _ => rfl, fun _ _ => rfl⟩
       · intro z hz
         have : z ≠ x := fun e => hz (e ▸ hx)
         simp [upd, this]
       · rintro r' ⟨z, hz, hzr⟩
         by_cases e : z = x
-        · subst e; simp [upd] at hzr; subst hzr; exact Or.inl ⟨y, hy, hq⟩
-        · simp [upd, e] at hzr; exact Or.inl ⟨z, hz, hzr⟩
+        · subst e; simp [upd] at hzr; subst hzr; exact ⟨y, hy, hq⟩
+        · simp [upd, e] at hzr; exact ⟨z, hz, hzr⟩
   | writeN strict y v =>
     have hy : y ∈ D := hn y (by simp [Act.nodes])
     simp only [step] at hs
@@ -143,8 +134,8 @@ theorem step_frame (D : List Nat) (s s' : Heap) (a : Act) (hn : ∀ y ∈ a.node
     | some r =>
       rw [hq] at hs; simp only [Except.ok.injEq] at hs; subst hs
       refine ⟨rfl, fun _ _ => rfl, fun _ _ => rfl, fun _ _ => rfl, fun _ _ => rfl, fun _ _ => rfl, Nat.le_refl _,
-              Nat.le_refl _, fun _ h => Or.inl h, fun _ h => Or.inl h, ?_, fun _ _ _ => rfl⟩
-      intro r' _ hnr
+              Nat.le_refl _, fun _ h => Or.inl h, fun _ h => h, ?_, fun _ _ => rfl⟩
+      intro r' hnr _
       have : r' ≠ r := fun e => hnr ⟨y, hy, e ▸ hq⟩
       simp [upd, this]
   | copyG strict t y =>
@@ -163,8 +154,8 @@ theorem step_frame (D : List Nat) (s s' : Heap) (a : Act) (hn : ∀ y ∈ a.node
         | some rt =>
           rw [hqt] at hs; simp only [Except.ok.injEq] at hs; subst hs
           refine ⟨rfl, fun _ _ => rfl, fun _ _ => rfl, fun _ _ => rfl, fun _ _ => rfl, fun _ _ => rfl, Nat.le_refl _,
-                  Nat.le_refl _, fun _ h => Or.inl h, fun _ h => Or.inl h, ?_, fun _ _ _ => rfl⟩
-          intro r' _ hnr
+                  Nat.le_refl _, fun _ h => Or.inl h, fun _ h => h, ?_, fun _ _ => rfl⟩
+          intro r' hnr _
           have : r' ≠ rt := fun e => hnr ⟨t, ht, e ▸ hqt⟩
           simp [upd, this]
   | fresh x ifNone =>
@@ -173,23 +164,23 @@ theorem step_frame (D : List Nat) (s s' : Heap) (a : Act) (hn : ∀ y ∈ a.node
     split at hs
     · simp only [Except.ok.injEq] at hs; subst hs; exact Frame.refl _ _
     · simp only [Except.ok.injEq] at hs; subst hs
-      refine ⟨rfl, fun _ _ => rfl, ?_, fun _ _ => rfl, fun _ _ => rfl, fun _ _ => rfl, Nat.le_succ _, Nat.le_refl _, ?_,
-              fun _ h => Or.inl h, ?_, fun _ _ _ => rfl⟩
+      refine ⟨rfl, fun _ _ => rfl, ?_, fun _ _ => rfl, fun _ _ => rfl, fun _ _ => rfl, Nat.le_refl _, Nat.le_refl _, ?_,
+              fun _ h => h, ?_, fun _ _ => rfl⟩
       · intro z hz
         have : z ≠ x := fun e => hz (e ▸ hx)
         simp [upd, this]
       · rintro r' ⟨z, hz, hzr⟩
         by_cases e : z = x
-        · subst e; simp [upd] at hzr; subst hzr; exact Or.inr ⟨Nat.le_refl _, Nat.lt_succ_self _⟩
+        · subst e; simp [upd] at hzr; subst hzr; exact Or.inr ⟨z, hx, rfl⟩
         · simp [upd, e] at hzr; exact Or.inl ⟨z, hz, hzr⟩
-      · intro r' hr' _
-        have : r' ≠ s.nRec := by omega
+      · intro r' _ hf
+        have : r' ≠ freshRec x := hf x hx
         simp [upd, this]
   | setCod x y =>
     have hx : x ∈ D := hn x (by simp [Act.nodes])
     simp only [step, Except.ok.injEq] at hs; subst hs
     refine ⟨rfl, fun _ _ => rfl, fun _ _ => rfl, fun _ _ => rfl, ?_, fun _ _ => rfl, Nat.le_refl _, Nat.le_refl _,
-            fun _ h => Or.inl h, fun _ h => Or.inl h, fun _ _ _ => rfl, fun _ _ _ => rfl⟩
+            fun _ h => Or.inl h, fun _ h => h, fun _ _ _ => rfl, fun _ _ => rfl⟩
     intro z hz
     have : z ≠ x := fun e => hz (e ▸ hx)
     simp [upd, this]
@@ -197,7 +188,7 @@ theorem step_frame (D : List Nat) (s s' : Heap) (a : Act) (hn : ∀ y ∈ a.node
     have hx : x ∈ D := hn x (by simp [Act.nodes])
     simp only [step, Except.ok.injEq] at hs; subst hs
     refine ⟨rfl, fun _ _ => rfl, fun _ _ => rfl, fun _ _ => rfl, fun _ _ => rfl, ?_, Nat.le_refl _, Nat.le_refl _,
-            fun _ h => Or.inl h, fun _ h => Or.inl h, fun _ _ _ => rfl, fun _ _ _ => rfl⟩
+            fun _ h => Or.inl h, fun _ h => h, fun _ _ _ => rfl, fun _ _ => rfl⟩
     intro z hz
     have : z ≠ x := fun e => hz (e ▸ hx)
     simp [upd, this]
@@ -205,7 +196,7 @@ theorem step_frame (D : List Nat) (s s' : Heap) (a : Act) (hn : ∀ y ∈ a.node
     have hx : x ∈ D := hn x (by simp [Act.nodes])
     simp only [step, Except.ok.injEq] at hs; subst hs
     refine ⟨rfl, ?_, fun _ _ => rfl, fun _ _ => rfl, fun _ _ => rfl, fun _ _ => rfl, Nat.le_refl _, Nat.le_refl _,
-            fun _ h => Or.inl h, fun _ h => Or.inl h, fun _ _ _ => rfl, fun _ _ _ => rfl⟩
+            fun _ h => Or.inl h, fun _ h => h, fun _ _ _ => rfl, fun _ _ => rfl⟩
     intro z hz
     have : z ≠ x := fun e => hz (e ▸ hx)
     simp [Heap.warn, upd, this]
